@@ -570,10 +570,22 @@ def check_weights_and_initialisers(run, A):
             n_init += 1
             where = f.loc(dv.node)
             cs = class_sum_form(den)
-            ok = cs is not None and strip_views(cs[0]) is strip_views(num) and cs[1] == -2 and cs[2] == -2
-            detail = f'divisor sums axis {cs[1]} and keeps it at {cs[2]}' if cs is not None else 'divisor is not a sum of the drawn array over one axis'
             # the drawn array has the class count on axis -2
             size = call_arg(strip_views(num), None, 'size')
+            if cs is not None and size is not None and isinstance(cs[1], int) and cs[1] >= 0:
+                # a draw of a FIXED number of axes (size=shape[-2:]: one (K, N) block shared by all independent entries): an axis counted from the front is that axis for every input
+                sz = strip_views(size)
+                rank_ = None
+                if sz.op == 'sub' and strip_views(sz.args[1]).op == 'slice':
+                    lo_, hi_, st_ = (const_val(strip_views(z)) if isinstance(z, T) else NOVAL for z in strip_views(sz.args[1]).args)
+                    if isinstance(lo_, int) and not isinstance(lo_, bool) and lo_ < 0 and hi_ is None and st_ is None:
+                        rank_ = -lo_
+                elif sz.op in ('tuple', 'list') and not any(x.op == 'star' for x in sz.args[0]):
+                    rank_ = len(sz.args[0])
+                if rank_ is not None and cs[1] < rank_:
+                    cs = (cs[0], cs[1] - rank_, (cs[2] - rank_) if isinstance(cs[2], int) and cs[2] >= 0 else cs[2])
+            ok = cs is not None and strip_views(cs[0]) is strip_views(num) and cs[1] == -2 and cs[2] == -2
+            detail = f'divisor sums axis {cs[1]} and keeps it at {cs[2]}' if cs is not None else 'divisor is not a sum of the drawn array over one axis'
             size_ok = None          # None: the shape of the draw is written in a way this rule does not read
             if size is not None:
                 for alt in unwrap_gamma(size):
